@@ -185,6 +185,7 @@ type clientExec struct {
 	cbs     []string
 	noClose bool
 	closed  bool
+	slowCb  int32 // handlers take a moment (op ticks2: widens the window in which two collector calls overlap)
 }
 
 func cevKind(e stun.Event) string {
@@ -217,6 +218,9 @@ func (x *clientExec) handler(name string) stun.Handler {
 		x.mu.Lock()
 		x.cbs = append(x.cbs, name+":"+showHex(e.TransactionID[:])+":"+cevKind(e))
 		x.mu.Unlock()
+		if atomic.LoadInt32(&x.slowCb) != 0 {
+			time.Sleep(500 * time.Microsecond)
+		}
 	}
 }
 
@@ -283,6 +287,9 @@ func (e *executor) clientOp(t []string) (string, bool) {
 	x := e.cl
 	if t[1] == "realclose" && len(t) == 5 {
 		return realCloseOp(atoi(t[2]), atoi(t[3]), t[4] == "1"), true
+	}
+	if t[1] == "realclock" && len(t) == 4 {
+		return realClockOp(atoi(t[2]), atoi(t[3])), true
 	}
 	switch {
 	case t[1] == "new" && len(t) == 8:
@@ -358,6 +365,26 @@ func (e *executor) clientOp(t []string) (string, bool) {
 	case t[1] == "tick" && len(t) == 3:
 		x.clock.set(int64(atoi(t[2])))
 		x.coll.f(time.Unix(0, int64(atoi(t[2]))))
+		return x.outs(), true
+	case t[1] == "ticks2" && len(t) == 4:
+		// two collector calls at once (a custom Collector may tick from several goroutines; Agent.Collect is documented
+		// as safe for that): together they report exactly what the two would report one after the other
+		x.clock.set(int64(atoi(t[3])))
+		atomic.StoreInt32(&x.slowCb, 1)
+		var wg sync.WaitGroup
+		for _, at := range []int{atoi(t[2]), atoi(t[3])} {
+			at := at
+			wg.Add(1)
+			go func() { defer wg.Done(); x.coll.f(time.Unix(0, int64(at))) }()
+		}
+		fin := make(chan struct{})
+		go func() { wg.Wait(); close(fin) }()
+		select {
+		case <-fin:
+		case <-time.After(10 * time.Second):
+			return "tick-hang", true
+		}
+		atomic.StoreInt32(&x.slowCb, 0)
 		return x.outs(), true
 	case t[1] == "blockwrite" && len(t) == 3:
 		x.conn.mu.Lock()
@@ -803,4 +830,83 @@ func realCloseOp(n, rtoUs int, noClose bool) string {
 		}
 	}
 	return fmt.Sprintf("ret=%s invoked-once=%d/%d", clientErr(err), once, n)
+}
+
+// a clock of the client's own: wall time shifted by `off`, or standing still
+type shiftedClock struct {
+	off    time.Duration
+	frozen bool
+	at     time.Time
+}
+
+func (c *shiftedClock) Now() time.Time {
+	if c.frozen {
+		return c.at
+	}
+	return time.Now().Add(c.off)
+}
+
+// CL realclock <n> <mode>: the DEFAULT ticker collector with a clock given by WithClock. All deadlines are counted on
+// the client's clock, so the collector has to ask that clock, too.
+// mode 0: the clock stands still two days ago, RTO 1 h: nothing may time out - n writes, no handler before Close.
+// mode 1: the clock runs two days ahead of wall time, RTO 200 us, no retransmission: every handler gets its time-out
+// before Close.
+func realClockOp(n, mode int) string {
+	stun.VerifResetClientPools()
+	conn := &quietConn{closed: make(chan struct{})}
+	clk := &shiftedClock{off: 48 * time.Hour}
+	rto := 200 * time.Microsecond
+	opts := []stun.ClientOption{stun.WithTimeoutRate(100 * time.Microsecond)}
+	if mode == 0 {
+		clk = &shiftedClock{frozen: true, at: time.Now().Add(-48 * time.Hour)}
+		rto = time.Hour
+	} else {
+		opts = append(opts, stun.WithNoRetransmit)
+	}
+	opts = append(opts, stun.WithClock(clk), stun.WithRTO(rto))
+	c, err := stun.NewClient(conn, opts...)
+	if err != nil {
+		return "err"
+	}
+	counts := make([]int32, n)
+	for i := 0; i < n; i++ {
+		i := i
+		m := &stun.Message{Raw: reqFor([]byte{8, 8, 8, 8, 8, 8, 8, 8, 8, 8, byte(i >> 8), byte(i)}, 28, 1)}
+		copy(m.TransactionID[:], []byte{8, 8, 8, 8, 8, 8, 8, 8, 8, 8, byte(i >> 8), byte(i)})
+		if err := c.Start(m, func(stun.Event) { atomic.AddInt32(&counts[i], 1) }); err != nil {
+			return "start-err:" + err.Error()
+		}
+	}
+	deadline := time.Now().Add(2 * time.Second)
+	before := 0
+	for { // mode 1 waits until everybody has been told (at most 2 s); mode 0 just watches for 30 ms
+		before = 0
+		for i := range counts {
+			if atomic.LoadInt32(&counts[i]) > 0 {
+				before++
+			}
+		}
+		if mode == 1 && (before == n || time.Now().After(deadline)) {
+			break
+		}
+		if mode == 0 && time.Now().After(deadline.Add(-2*time.Second+30*time.Millisecond)) {
+			break
+		}
+		time.Sleep(time.Millisecond)
+	}
+	writes := atomic.LoadInt32(&conn.writes)
+	done := make(chan error, 1)
+	go func() { done <- c.Close() }()
+	select {
+	case err = <-done:
+	case <-time.After(10 * time.Second):
+		return "close-hang"
+	}
+	once := 0
+	for i := range counts {
+		if atomic.LoadInt32(&counts[i]) == 1 {
+			once++
+		}
+	}
+	return fmt.Sprintf("ret=%s writes=%d completed-before-close=%d invoked-once=%d/%d", clientErr(err), writes, before, once, n)
 }
